@@ -24,14 +24,14 @@ ASSUMPTIONS = ["argparse is the command-line parser", "keys are identifiers that
 KEYS = ["a", "b_c", "port"]
 CMD_VALUE = {"Int": ("7", 7), "Str": ("hello", "hello"), "Float": ("2.5", 2.5), "Include": ("inc.cfg", "inc.cfg"),
              # an empty value is a value; string fields with choices normalise what the user typed before judging it
-             "StrEmpty": ("", ""), "Level": ("DEBUG", "debug"), "Mode": (" Production ", "production"), "Choice": (" B ", "b")}
-ASSIGN = {"Int": 3, "Str": "s", "Float": 1.25, "Bool": None, "List": [2], "Include": "inc2.cfg", "StrEmpty": "s", "Level": "error", "Mode": "development",
+             "Number": ("8", 8), "StrEmpty": ("", ""), "Level": ("DEBUG", "debug"), "Mode": (" Production ", "production"), "Choice": (" B ", "b")}
+ASSIGN = {"Int": 3, "Str": "s", "Float": 1.25, "Bool": None, "List": [2], "Include": "inc2.cfg", "Number": 4, "StrEmpty": "s", "Level": "error", "Mode": "development",
           "Choice": "a"}
 # schemas holding an include field (a persistent string-valued scalar like any other file name field)
 INCLUDE_SPECS = [[["a", "Include"]], [["a", "Int"], ["b_c", "Include"]], [["a", [["a", "Include"]]]],
                  [["a", [["a", "Int"], ["b_c", "Include"]]], ["b_c", "Bool"]], [["a", [["a", [["a", "Include"]]], ["b_c", "Bool"]]]]]
 ENV_OPTS = [False, True, "C16PFX", None]
-VALUE_SPECS = [[["a", "StrEmpty"]], [["a", "Level"], ["b_c", "Mode"]], [["a", [["a", "Choice"], ["b_c", "StrEmpty"]]], ["b_c", "Level"]],
+VALUE_SPECS = [[["a", "Number"]], [["a", [["a", "Number"], ["b_c", "Bool"]]]], [["a", "StrEmpty"]], [["a", "Level"], ["b_c", "Mode"]], [["a", [["a", "Choice"], ["b_c", "StrEmpty"]]], ["b_c", "Level"]],
                [["a", [["a", [["a", "Mode"]]], ["b_c", "Int"]]], ["port", "Choice"]]]
 
 
@@ -108,6 +108,8 @@ def _fill(s, spec, ctr, explicit=None):
             _fill(getattr(s, key), kind, ctr)
         elif kind == "Include":
             setattr(s, key, cc.IncludeField())
+        elif kind == "Number":
+            setattr(s, key, cc.NumberField(int, default=1))           # the generic number class, not one of its named subclasses
         elif kind == "StrEmpty":
             setattr(s, key, cc.StringField(default="d"))
         elif kind == "Level":
@@ -153,7 +155,7 @@ def snapshot(cfg, spec):
 
 
 def bounds(tier):
-    return {"schemas": len(schema_specs(tier)), "depth": 3, "root_width": 3 if tier == "thorough" else 2, "states": ["default", "assigned"]}
+    return {"schemas": len(schema_specs(tier)), "depth": 3, "root_width": 3 if tier == "thorough" else 2, "states": ["default", "assigned", "reloaded (sections replaced by a load after dotted-path use)"]}
 
 
 def jobs(tier):
@@ -297,7 +299,9 @@ def check_schema(ctx, spec, only, bottom_up=False):
             choices.append([None, (p, [base], True), (p, ["--no-" + base[2:]], False)])
         else:
             choices.append([None, (p, [base, CMD_VALUE[k][0]], CMD_VALUE[k][1])])
-    for state in ("default", "assigned"):
+    for state in ("default", "assigned", "reloaded"):
+        if state == "reloaded" and not any(k == "Schema" for _, k in ref_paths):
+            continue
         for combo in itertools.product(*choices):
             supplied = [c for c in combo if c is not None]
             argv = [x for c in supplied for x in c[1]]
@@ -310,12 +314,19 @@ def check_schema(ctx, spec, only, bottom_up=False):
                 if only is not None and only != [state, argv, ign]:
                     continue
                 cfg = schema()
-                if state == "assigned":
+                if state in ("assigned", "reloaded"):
                     for p, k in ref_paths:
                         if k in ASSIGN and ASSIGN[k] is not None:
                             cfg[p] = ASSIGN[k]
                         elif k == "Bool":
                             cfg[p] = not chained(cfg, p)
+                if state == "reloaded":
+                    # every nested section is replaced by a new configuration object after dotted paths were used
+                    cfg.load_tree(cfg.to_tree())
+                    for p, k in ref_paths:
+                        if k != "Schema" and V.canon(cfg[p]) != V.canon(chained(cfg, p)):
+                            bad("config-getitem-after-reload|%s" % k, "after the sections were replaced by a load, cfg[%r]=%r but attribute access gives %r" % (p, cfg[p], chained(cfg, p)),
+                                [state, argv, ign])
                 before = dict(snapshot(cfg, spec))
                 err = io.StringIO()
                 ctx.transitions += 1
